@@ -10,7 +10,6 @@ From Coq Require Import ZArith.
 From V.model Require Import Base Deb822Lex Deb822Parse Grammar Lossy LossySpec Derive TypedDocs Codecs.
 From V.gen Require Import Structs_gen.
 From V.proofs Require Import BaseP LossyRtP DeriveP CodecsP TypedCodecP TypedCanonP TypedDocsP TypedSpecP.
-Set Default Timeout 120.
 
 Lemma ext_stable_nil E pr pa ll : ext_stable E pr pa ll [].
 Proof. intros i x e []. Qed.
